@@ -2,7 +2,7 @@
 from e2 import E2
 FILES = ['src/reader/file_reader.c', 'src/reader/mmap_reader.c', 'src/reader/page_reader.c', 'src/reader/column_reader.c', 'src/reader/batch_reader.c',
          'src/thrift/thrift_decode.c', 'src/thrift/parquet_types.c', 'src/core/arena.c', 'src/core/error.c']
-BUDGET = {'quick': 840, 'thorough': 3600}
+BUDGET = {'quick': 780, 'thorough': 3600}
 H = 'harness/e2/c04_file.c'
 STUBS = ['zlib / libzstd: contract stubs (arbitrary status, arbitrary output within the declared capacity)', 'summary: carquet_crc32 = uninterpreted function of the page bytes',
          'stdio and open/fstat/mmap over the in-memory model file system', 'cpuid: no SIMD features (scalar dispatch)', 'snprintf/vsnprintf: writes an empty NUL-terminated string',
@@ -52,7 +52,7 @@ def mixed_pages(tier):
     for sh in shapes:
         if tier == 'quick':
             for d0 in range(0, 96, 4):       # page regions of these shapes are 48..90 bytes long (positions wrap at the footer)
-                out.append(c06.shape(damage=4, damage0=d0, timeout=300, max_paths=400000, **sh))
+                out.append(c06.shape(damage=4, damage0=d0, timeout=240, max_paths=400000, **sh))
         else:
             for d0 in range(0, 192):         # one position per obligation
                 out.append(c06.shape(damage=1, damage0=d0, timeout=1500, max_paths=400000, **sh))
@@ -74,19 +74,19 @@ def obligations(tier):
                 for k in range(8):
                     if w0 + k in HEAVY0_BYTES:   # one byte whose values steer the page loaders through the whole file: 8 value-range slices
                         for s in range(1, 8):
-                            o.append(win(0, 0, w0 + k, 1, 1, 1, 0, 620, wslice=s))
+                            o.append(win(0, 0, w0 + k, 1, 1, 1, 0, 400, wslice=s))
                         for v in range(32):
                             if v not in STUB_CODEC_VALUES:
-                                o.append(win(0, 0, w0 + k, 1, 1, 1, 0, 620, wvalue=v))
+                                o.append(win(0, 0, w0 + k, 1, 1, 1, 0, 400, wvalue=v))
                     else:
-                        o.append(win(0, 0, w0 + k, 1, 1, 1, 0, 620))
+                        o.append(win(0, 0, w0 + k, 1, 1, 1, 0, 400))
             else:
-                o.append(win(0, 0, w0, 8, 1, 1, 0, 620))
-        for w0 in range(0, 48, 8):
-            o.append(win(0, 1, w0, 8, 1, 1, 0, 620))
-        o.append(win(0, 0, 0, 6, 31, 1, 1, 620)); o.append(win(0, 0, 0, 6, 31, 1, 2, 620))
-        o.append(win(0, 1, 0, 6, 13, 1, 2, 620))
-        o.append(win(1, 0, 0, 8, 29, 1, 0, 620)); o.append(win(1, 1, 0, 8, 11, 1, 0, 620))
+                o.append(win(0, 0, w0, 4, 1, 1, 0, 400)); o.append(win(0, 0, w0 + 4, 4, 1, 1, 0, 400))
+        for w0 in range(0, 48, 4):
+            o.append(win(0, 1, w0, 4, 1, 1, 0, 400))
+        o.append(win(0, 0, 0, 6, 31, 1, 1, 400)); o.append(win(0, 0, 0, 6, 31, 1, 2, 400))
+        o.append(win(0, 1, 0, 6, 13, 1, 2, 400))
+        o.append(win(1, 0, 0, 8, 29, 1, 0, 400)); o.append(win(1, 1, 0, 8, 11, 1, 0, 400))
     else:
         for b in HEAVY0_BYTES:
             for v in STUB_CODEC_VALUES:
